@@ -187,6 +187,24 @@ def _ecdsa_worker(args):
     return acc.result()
 
 
+def _edit_worker(args):
+    """Read HASSH / fingerprints, edit the message or key in place (name-list events, field assignment), read again:
+    the values must be those of the equal object built by construction (which the other clauses tie to the wire)."""
+    qn, idx = args
+    from mc.props import c13
+    acc = core.Acc()
+    cls = classes.class_by_name(qn)
+    objs = objects.seed_objects().get(cls, [])
+    if idx >= len(objs):
+        return acc.result()
+    n = c13.check_edit_histories(acc, objs[idx], {'kind': 'edit', 'cls': qn, 'seed': idx},
+                                 names=('hassh', 'hassh_server', 'fingerprints', 'key_bytes', 'host_key_asdict'),
+                                 sigprefix='stale_fingerprint')
+    acc.count('edit_histories', n)
+    acc.state(core.h64('edit', qn, idx))
+    return acc.result()
+
+
 def _wire_worker(args):
     """For every accepted wire form b of a key / certificate (seeds and their accepted single-byte substitutions,
     plus reference encodings with non-minimal integers): the fingerprints must be the digests of b itself."""
@@ -274,6 +292,12 @@ def run(ctx):
     ctx.pmap(_keyparam_worker, [(p, 16, 1100 if ctx.quick else 4097) for p in range(16)])
     ctx.pmap(_wire_worker, [(classes.qualname(c),) for c in key_classes()])
     ctx.pmap(_ecdsa_worker, [(p, 8) for p in range(8)])
+    eitems = []
+    kex = [c for c in classes.parsable_classes() if c.__name__ == 'SshKeyExchangeInit']
+    for cls in key_classes() + kex:
+        for i in range(min(len(so.get(cls, [])), 3 if ctx.quick else 10 ** 6)):
+            eitems.append((classes.qualname(cls), i))
+    ctx.pmap(_edit_worker, eitems)
     ctx.pmap(_cert_variant_worker, [(classes.qualname(c),) for c in key_classes() if c.__name__.startswith('SshHostCertificate')])
     ctx.assumptions += ['HASSH = md5(kex;enc;mac;comp) over the name-lists as they appear on the wire '
                         '(client: client-to-server lists, server: server-to-client lists)',
@@ -283,7 +307,8 @@ def run(ctx):
                            'duplicated names, empty) in each list HASSH reads and every pair of such lists (length <= '
                            '%d); every key and certificate within %d deviations of the seeds; RSA keys over boundary bit '
                            'lengths; ECDSA blobs for every algorithm name x every curve identifier (named and OID) x 2 '
-                           'points' % (1 if ctx.quick else 2, 1 if ctx.quick else 2))
+                           'points; read / edit in place / read histories of HASSH and fingerprints for KEXINIT, keys and certificates'
+                           % (1 if ctx.quick else 2, 1 if ctx.quick else 2))
 
 
 def replay(ctx, w):
@@ -295,6 +320,10 @@ def replay(ctx, w):
         for side, attr_name in (('client', 'hassh'), ('server', 'hassh_server')):
             if getattr(o, attr_name) != ref.hassh_from_kexinit(wire, server=(side == 'server')):
                 acc.violation('hassh:%s:differs' % side, 'differs', w)
+    elif w['kind'] == 'edit':
+        res = _edit_worker((w['cls'], w['seed']))
+        vs = [v for v in res[1] if v['witness'].get('tag') == w.get('tag')]
+        return vs[0] if vs else None
     elif w['kind'] == 'ecdsa':
         res = _ecdsa_worker((0, 1))
         vs = [v for v in res[1] if v['witness'].get('index') == w.get('index')]
